@@ -38,7 +38,7 @@ import (
 	"strings"
 )
 
-const extractorVersion = "c18-extract-14"
+const extractorVersion = "c18-extract-14+prerun1"
 
 var excludedPkgs = map[string]string{
 	"draw":     "graphical output",
@@ -460,6 +460,96 @@ func liveCommands() []string {
 	return out
 }
 
+// cobra runs only the NEAREST persistent pre-run hook of a command (no EnableTraverseRunHooks in this repository):
+// a parent command that defines one hides the root's, which is where --seed reaches rand.Seed.
+// Live command tree: every runnable command whose nearest hook is not the root's, with the owner of that hook.
+func preRunHidden() [][2]string {
+	var out [][2]string
+	var walk func(c *cobra.Command)
+	walk = func(c *cobra.Command) {
+		for _, sub := range c.Commands() {
+			if sub.Name() == "help" || sub.Name() == "completion" || strings.HasPrefix(sub.Name(), "__") {
+				continue
+			}
+			if sub.Runnable() {
+				for p := sub; p != nil; p = p.Parent() {
+					if p.PersistentPreRun != nil || p.PersistentPreRunE != nil {
+						if p != gotreecmd.RootCmd {
+							out = append(out, [2]string{strings.TrimPrefix(sub.CommandPath(), "gotree "), strings.TrimPrefix(p.CommandPath(), "gotree ")})
+						}
+						break
+					}
+				}
+			}
+			walk(sub)
+		}
+	}
+	walk(gotreecmd.RootCmd)
+	sort.Slice(out, func(i, j int) bool { return out[i][0] < out[j][0] })
+	return out
+}
+
+// Source: the cobra.Command literals of package cmd that set PersistentPreRun / PersistentPreRunE:
+// (file, first word of Use, "true" when the hook's body calls RootCmd.PersistentPreRun itself)
+func preRunHooks(repo string) [][3]string {
+	var out [][3]string
+	ents, _ := os.ReadDir(filepath.Join(repo, "cmd"))
+	fset := token.NewFileSet()
+	for _, e := range ents {
+		n := e.Name()
+		if !strings.HasSuffix(n, ".go") || strings.HasSuffix(n, "_test.go") {
+			continue
+		}
+		f, err := parser.ParseFile(fset, filepath.Join(repo, "cmd", n), nil, 0)
+		if err != nil {
+			continue
+		}
+		ast.Inspect(f, func(x ast.Node) bool {
+			cl, ok := x.(*ast.CompositeLit)
+			if !ok {
+				return true
+			}
+			use := ""
+			var hooks []ast.Expr
+			for _, el := range cl.Elts {
+				kv, ok := el.(*ast.KeyValueExpr)
+				if !ok {
+					continue
+				}
+				k, ok := kv.Key.(*ast.Ident)
+				if !ok {
+					continue
+				}
+				if k.Name == "Use" {
+					if bl, ok := kv.Value.(*ast.BasicLit); ok {
+						use = strings.Fields(strings.Trim(bl.Value, "\"`") + " ")[0]
+					}
+				}
+				if k.Name == "PersistentPreRun" || k.Name == "PersistentPreRunE" {
+					hooks = append(hooks, kv.Value)
+				}
+			}
+			for _, h := range hooks {
+				calls := false
+				ast.Inspect(h, func(y ast.Node) bool {
+					if ce, ok := y.(*ast.CallExpr); ok {
+						if se, ok := ce.Fun.(*ast.SelectorExpr); ok && (se.Sel.Name == "PersistentPreRun" || se.Sel.Name == "PersistentPreRunE") {
+							if id, ok := se.X.(*ast.Ident); ok && id.Name == "RootCmd" {
+								calls = true
+							}
+						}
+					}
+					return true
+				})
+				out = append(out, [3]string{"cmd/" + n, use, fmt.Sprint(calls)})
+			}
+			return true
+		})
+	}
+	sort.Slice(out, func(i, j int) bool { return out[i][0]+out[i][1] < out[j][0]+out[j][1] })
+	return out
+}
+
 var repoOfRender string
 
 // files of cmd/ whose code mentions the identifier rootCpus (the value of -t)
@@ -559,6 +649,21 @@ func render(sites, sources []siteRec, typeErrs []string, hooks []string, depSite
 			b.WriteString(", ")
 		}
 		b.WriteString(leanStr(e))
+	}
+	b.WriteString("]\n\n")
+	b.WriteString("-- live command tree: runnable commands whose NEAREST persistent pre-run hook is not the root's (command, owner of the hook)\ndef preRunHidden : List (String × String) := [")
+	for i, e := range preRunHidden() {
+		if i > 0 {
+			b.WriteString(", ")
+		}
+		b.WriteString("(" + leanStr(e[0]) + ", " + leanStr(e[1]) + ")")
+	}
+	b.WriteString("]\n\n-- source: cobra.Command literals of package cmd with a persistent pre-run hook (file, Use, the hook calls RootCmd.PersistentPreRun)\ndef preRunHooks : List (String × String × Bool) := [")
+	for i, e := range preRunHooks(repoOfRender) {
+		if i > 0 {
+			b.WriteString(", ")
+		}
+		b.WriteString("(" + leanStr(e[0]) + ", " + leanStr(e[1]) + ", " + e[2] + ")")
 	}
 	b.WriteString("]\n\nend Gotree.Gen.C18Sites\n")
 	return b.String()
